@@ -79,6 +79,20 @@ DIRECTED = [
         _a("RestartDue"), _a("ChildRes", c="B", p="A", res=["p1", "p2", "a1"]),
         _a("Pump"), _a("RoaDel", c="B", r=["p1", "a1"]), _a("Pump"),
         _a("RestartNormal"), _a("Settle")]},
+    # a CA with two resource classes, one of them still waiting for its
+    # first certificate (pending key) when the renewal runs: the objects of
+    # the other class are renewed all the same
+    {"slots": kc.MULTI_SLOTS, "mftdue": True, "objdue": True, "actions": [
+        _a("AddCa", c="B", p="A", res=["p1", "p2", "a1"]), _a("Settle"),
+        _a("AddCa", c="C", p="B", res=["p1", "a1"]), _a("Settle"),
+        _a("RoaAdd", c="C", r=["p1", "a1"]),
+        _a("AspaSet", c="C", cust="a1", prov=["a2"]), _a("Settle"),
+        _a("AddParent", c="C2", p="A", res=["p2"]),
+        _a("Step", task="sync_C_with_parent_A"),
+        _a("Mark"), _a("RestartDue"), _a("Renew"),
+        _a("Step", task="sync_repo_C"),
+        _a("Step", task="update_rrdp_if_needed"),
+        _a("RestartNormal"), _a("ExpectRenewed"), _a("Settle")]},
 ]
 
 
